@@ -353,6 +353,9 @@ def run_x(out: Outcome, programs, prop, max_cex=8, nshards=None, timeout_s=600, 
     failures = []
     for name, (p, h) in byname.items():
         r = res[name]
+        if not r["checks"]:
+            # no property result at all: the harness hit its time limit or the tool died -- undecided, never a violation
+            raise Infra(f"harness {name} produced no check results (status {r['status']}, harness time limit {timeout_s}s?), not a violation")
         ok, fails, vac = xrun.judge(h, r)
         fails = relevant_failures(prop, h, fails)
         if prop in SAFE_ONLY:
